@@ -67,7 +67,7 @@ CLAIMS = {
     "C10": dict(
         text="Generated Gateway API worlds are synced by the real controller; an independent evaluation of the admission rules (class, parentRef group/kind/namespace/sectionName, allowedRoutes kinds and namespaces Same/All/Selector) gives the expected host/path -> backend table, per-backend servers with zero/non-zero weight and TCP ports, which must equal what the written maps, backend sections and TCP frontends say - in both directions. Matches with header conditions are requested with their headers and must reach their backend, judged where Gateway API precedence and the controller's lookup order agree.",
         design_ref="DESIGN.md section 3, C10",
-        note="Reference written from the Gateway API rules and the documented limitations (listener hostname overrides, only Gateway parents); only http requests are routed; v1beta1/v1alpha2 HTTPRoutes share the converter code and are not generated.",
+        note="Reference written from the Gateway API rules and the documented limitations (listener hostname overrides, only Gateway parents); only http requests are routed; a third of the worlds run on a cluster that serves the Gateway API as v1beta1 only; v1alpha2 HTTPRoutes share the converter code and are not generated.",
         technique="property-based testing (rapid): differential against an independent reference evaluation of Gateway API admission",
     ),
     "C06": dict(
